@@ -500,6 +500,12 @@ SEED_EXPECT.update({
     'R5-C20b': ['C13', 'C20'],
 })
 
+# round 6 (8 pairs written by one sub-agent after all rules were frozen: the same refactoring without / with one slip; the good halves are
+# benign/T-R6-*): 8 of 8 slips reported by the property they break, 8 of 8 good halves silent (3 alarmed at first contact)
+SEED_EXPECT.update({
+    'R6-C04a': ['C04'], 'R6-C05a': ['C05'], 'R6-C10a': ['C10'], 'R6-C11a': ['C11'], 'R6-C14a': ['C14'], 'R6-C15a': ['C15'], 'R6-C17a': ['C17'], 'R6-C18a': ['C18'],
+})
+
 
 def apply_patch_file(relpath):
     def edit(root):
